@@ -34,6 +34,24 @@ def main():
     tables = T.load_tensor_tables(
         ck, dim, "TensorAlgebra_3.cfg" if ck.thorough else "TensorAlgebra.cfg")
     ck.tlc("TDIndex", "TDIndex.cfg", workers=8)
+    # unbounded: TLAPS proves for EVERY propagation length, refinement,
+    # stride and tensor length (propagation axis inside the bath axis) that
+    # no read leaves the tensor and every read uses the slice one bath step
+    # after the state time; TDIndex.tla and TDIndexProof.tla share their
+    # operators (TDIndexOps.tla)
+    proved, total = ck.tlaps("TDIndexProof", deps=("TDIndexOps",))
+    if proved != total or total < 60:
+        raise MachineryFailure("TLAPS: %d of %d obligations of TDIndexProof "
+                               "proved" % (proved, total))
+    ck.note("TLAPS: all %d obligations of TDIndexProof proved (index walk in "
+            "range for every configuration)" % total)
+    if ck.thorough:
+        bad, tot = ck.tlaps("TDIndexProof", deps=("TDIndexOps",), mutate=(
+            "FitsIn(ntprop, nref, stride, ntens)",
+            "FitsIn(ntprop, nref, stride, ntens + 1)"))
+        if bad == tot:
+            raise MachineryFailure("TLAPS proved the index walk for an axis "
+                                   "that does not fit")
 
     # -------------------------------- basis triples: both forms of apply()
     N = dim
